@@ -228,6 +228,30 @@ func writeDocFiles() {
 		sb, serr := pdfdoc.BuildSimple(six, 612, 792)
 		put("pdfSix", ".pdf", sb, serr)
 	}
+	// one page that invokes an (empty) form 51000 times and then a form that shows the text: more than half of what one
+	// extraction may spend on form invocations - the allowance belongs to each extraction, not to the open file
+	{
+		var body strings.Builder
+		for k := 0; k < 51000; k++ {
+			body.WriteString("/X0 Do\n")
+		}
+		body.WriteString("/X1 Do\n")
+		form := func(content string) *pdfw.Stream {
+			return &pdfw.Stream{Dict: pdfw.Dict{{"Type", pdfw.Name("XObject")}, {"Subtype", pdfw.Name("Form")}, {"BBox", pdfw.Arr{pdfw.Int(0), pdfw.Int(0), pdfw.Int(612), pdfw.Int(792)}},
+				{"Resources", pdfw.Dict{{"Font", pdfw.Dict{{"F1", pdfw.Ref{Num: 5}}}}}}}, Data: []byte(content)}
+		}
+		f := &pdfw.File{EOL: "lf", Revs: []pdfw.Revision{{XRef: "table", Root: pdfw.Ref{Num: 1}, Items: []pdfw.Item{
+			{Num: 1, Val: pdfw.Dict{{"Type", pdfw.Name("Catalog")}, {"Pages", pdfw.Ref{Num: 2}}}},
+			{Num: 2, Val: pdfw.Dict{{"Type", pdfw.Name("Pages")}, {"Kids", pdfw.Arr{pdfw.Ref{Num: 3}}}, {"Count", pdfw.Int(1)}}},
+			{Num: 3, Val: pdfw.Dict{{"Type", pdfw.Name("Page")}, {"Parent", pdfw.Ref{Num: 2}}, {"MediaBox", pdfw.Arr{pdfw.Int(0), pdfw.Int(0), pdfw.Int(612), pdfw.Int(792)}},
+				{"Resources", pdfw.Dict{{"Font", pdfw.Dict{{"F1", pdfw.Ref{Num: 5}}}}, {"XObject", pdfw.Dict{{"X0", pdfw.Ref{Num: 6}}, {"X1", pdfw.Ref{Num: 7}}}}}}, {"Contents", pdfw.Ref{Num: 4}}}},
+			{Num: 4, Stm: &pdfw.Stream{Data: []byte(body.String())}},
+			{Num: 5, Val: pdfw.Dict{{"Type", pdfw.Name("Font")}, {"Subtype", pdfw.Name("Type1")}, {"BaseFont", pdfw.Name("Helvetica")}, {"Encoding", pdfw.Name("WinAnsiEncoding")}}},
+			{Num: 6, Stm: form("q Q")},
+			{Num: 7, Stm: form("BT /F1 12 Tf 72 700 Td (text drawn by the last form) Tj ET")}}}}}
+		fb, _, ferr := f.Bytes()
+		put("pdfManyForms", ".pdf", fb, ferr)
+	}
 	// six pages; a marginal line that stands at the same place on two of them only (fewer than half), unique first lines
 	// in the band on the others, and a page number on all: which marginal texts count as running depends on counts per
 	// text - never on the order in which the texts happen to be visited
@@ -683,6 +707,15 @@ func init() {
 		var out []*hdoc
 		if docFilePaths["pdfSix"] != "" {
 			out = append(out, forkDoc("pdfSix"))
+		}
+		if docFilePaths["pdfManyForms"] != "" {
+			// (a heavy page: only the operations that ask one reader twice)
+			h := handleDoc("pdfManyForms")
+			keep := map[string]func() string{}
+			for _, k := range []string{"fromreader-all", "fromreader-all@2"} {
+				keep[k] = h.run[k]
+			}
+			out = append(out, &hdoc{name: "forms-pdfManyForms", run: keep})
 		}
 		for _, n := range []string{"pdfA", "pdfB", "pdfSplit", "pdfHex", "pdfHexFl", "pdfBadObjStm", "pdfMixed", "pdfSharedRes", "pdfKidsLoop", "pdfKidsMissing", "pdfBadStream"} {
 			if docFilePaths[n] != "" {
